@@ -182,8 +182,38 @@ class _Run:
             missing = sorted(set(want) - set(got))
             extra = sorted(set(got) - set(want))
             self.involve(ids=missing + extra)
-            self.viol("registry-diverged", label, "daemon reports %r, model has %r (missing %r, unexpected %r)"
-                      % (sorted(got), want, missing, extra))
+            if missing:
+                self.viol("registered-id-lost", label, "after this step the daemon no longer reports %r, which %s registered "
+                          "(daemon reports %r, model has %r)" % (missing, "are" if len(missing) > 1 else "is", sorted(got), want))
+            self.viol("unregistered-id-still-reported", label, "after this step the daemon still reports %r, which %s not registered "
+                      "(daemon reports %r, model has %r)" % (extra, "are" if len(extra) > 1 else "is", sorted(got), want))
+
+    def held_by_daemon(self, w):
+        """is the object behind weakref w reachable from the daemon (bounded backwards search through referrers)?"""
+        roots = (id(self.daemon), id(vars(self.daemon)))
+        seen = set()
+        level = [w()]
+        seen.add(id(level))
+        for _depth in range(5):
+            nxt = []
+            seen.add(id(nxt))
+            for o in level:
+                refs = gc.get_referrers(o)
+                seen.add(id(refs))
+                for r in refs:
+                    if id(r) in seen or type(r).__name__ == "frame":
+                        continue
+                    seen.add(id(r))
+                    if id(r) in roots:
+                        del level, nxt, refs, o, r
+                        return True
+                    nxt.append(r)
+                del refs
+            level = nxt
+            if len(level) > 2000:
+                break
+        del level
+        return False
 
     # ------------------------------------------------------------------ steps
     def do_reg(self, op):
@@ -538,11 +568,16 @@ class _Run:
         del self.pool[k]
         gc.collect()
         if w() is not None:
-            held = sorted(i for i, v in self.daemon.objectsById.items() if v is w())
-            if held:
-                self.viol("daemon-keeps-unregistered-object", "weak" if ids else self.state_of(xk),
-                          "%s has no strong registration in the model yet the daemon's table holds it strongly under %r" % (self.name(xk), held))
-            raise S.HarnessError("gc point: object#%d did not die (%d referrers)" % (xk[1], len(gc.get_referrers(w()))))
+            if not self.held_by_daemon(w):
+                raise S.HarnessError("gc point: object#%d did not die and the daemon does not hold it (%d referrers)"
+                                     % (xk[1], len(gc.get_referrers(w()))))
+            if ids:
+                self.viol("weak-object-kept-alive", "weak", "%s is only weakly registered (%r), the harness dropped its last reference, "
+                          "yet the daemon keeps the object alive" % (self.name(xk), ids))
+            # an unregistered object the daemon still refers to: the statement does not forbid that - no gc point here
+            self.pool[k] = w()
+            self.sched.ev("gc-skipped", self.i, k)
+            return
         for i in ids:
             del self.table[i]
             self.id_lost[i] = "collected"
@@ -613,8 +648,9 @@ class RegistryWorld(World):
               "generated_id", "registered_listing", "serpent", "json", "msgpack", "multiplex", "thread"]
     RULE = ("plan = (server type, generator tier core|extended, 3-10 steps (thorough: -16) of register / unregister / uriFor / "
             "proxyFor / call / return-object / gc / registered over 3 pool objects + 2 classes + ids id0..id2, generated, "
-            "colliding ('the id of object k'), reserved; force only in the extended tier; weak for objects; serializer per "
-            "remote step) followed by a fixed epilogue (listing, a call to every id ever seen, uriFor + return of every pool "
+            "colliding ('the current or last id of object k'), reserved; force only in the extended tier; weak for objects; "
+            "serializer per remote step; 40% of the plans embed a directed motif - id re-use after an object lost it, forced "
+            "replacement, forced second id - among random steps) followed by a fixed epilogue (listing, a call to every id ever seen, uriFor + return of every pool "
             "object); distinct = distinct plan; non-trivial = a registration was accepted and a remote step ran")
     ASSUMPTIONS = ["the id -> object table is the truth; marks on objects are not consulted",
                    "register(x, 'Pyro.Daemon', force=True) and any forced registration over the dispenser are not generated",
